@@ -1887,7 +1887,7 @@ class MainProvider(ResolverMixin, BaseProvider):
             for prop in inst.properties.values():
                 if prop.type == 'reference':
                     # Does this prop instance name match target inst name
-                    if prop.value == instname:
+                    if prop.value is not None and prop.value == instname:
                         if result_class:
                             if inst.classname.lower() not in resultclasses:
                                 continue
@@ -1992,6 +1992,8 @@ class MainProvider(ResolverMixin, BaseProvider):
             inst = self._get_bare_instance(ref_path, instance_store)
             for prop in inst.properties.values():
                 if prop.type == 'reference':
+                    if prop.value is None:
+                        continue
                     if prop.value == inst_name:
                         if assoc_class \
                                 and inst.classname.lower() not in assoc_classes:
